@@ -529,6 +529,13 @@ class ClockScheduler():
     def add(self, time, clock_task):
         self.queue.add(time, clock_task)
 
+    def retime(self, clock):
+        # As in rt, where each TempoClock keeps its queue in beats, a tempo
+        # or beats change moves the pending tasks of that clock in time.
+        for _, clock_task in list(self.queue):
+            if clock_task.clock is clock:
+                self.queue.add(clock.beats2secs(clock_task.beats), clock_task)
+
     def reset(self):
         self.queue.clear()
 
@@ -538,6 +545,7 @@ class ClockTask():
         self.clock = clock
         self.task = task
         self.scheduler = scheduler
+        self.beats = beats
         scheduler.add(clock.beats2secs(beats), self)
 
     def _wakeup(self, time):
@@ -546,7 +554,8 @@ class ClockTask():
             beats = self.clock.secs2beats(time)
             delta = self.task.__awake__(self.clock)
             if isinstance(delta, (int, float)) and not isinstance(delta, bool):
-                self.scheduler.add(self.clock.beats2secs(beats + delta), self)
+                self.beats = beats + delta
+                self.scheduler.add(self.clock.beats2secs(self.beats), self)
         except stm.StopStream:
             pass
         except Exception:
@@ -951,6 +960,7 @@ class TempoClock(Clock, metaclass=MetaTempoClock):
         # en tempo_
         mdl.NotificationCenter.notify(self, 'tempo')
         if self.mode == _libsc3.main.NRT_MODE:
+            _libsc3.main._clock_scheduler.retime(self)
             return
         else:
             with self._sched_cond:
@@ -980,6 +990,7 @@ class TempoClock(Clock, metaclass=MetaTempoClock):
         # etempo_
         mdl.NotificationCenter.notify(self, 'tempo')
         if self.mode == _libsc3.main.NRT_MODE:
+            _libsc3.main._clock_scheduler.retime(self)
             return
         else:
             with self._sched_cond:
@@ -1038,6 +1049,7 @@ class TempoClock(Clock, metaclass=MetaTempoClock):
         self._base_beats = value
         self._beat_dur = 1.0 / self._tempo
         if self.mode == _libsc3.main.NRT_MODE:
+            _libsc3.main._clock_scheduler.retime(self)
             return
         else:
             with self._sched_cond:
